@@ -233,6 +233,30 @@ for _sn, _sp in {'basic': b'Basic ', 'digest': b'Digest ', 'digest_user': b'Dige
         FAMILIES[_name] = ('req', dict(BIG), pump(RQ + b'Authorization: ' + _sp, VALUE_UNITS[_un], b'\r\n\r\n'))
         HV_FAMILIES.append(_name)
 
+# every position at which the parsers expect the start of a line x a dictionary of odd lines (blank, blanks only, tabs, NULs, bare CRs,
+# one letter), many of them in a row
+LINE_UNITS = {'crlf': b'\r\n', 'lf': b'\n', 'sp_crlf': b' \r\n', 'sp3_lf': b'   \n', 'tab3_crlf': b'\t\t\t\r\n', 'nul3_lf': b'\0\0\0\n', 'nul_crlf': b'\0\r\n', 'x_crlf': b'x\r\n',
+              'sp_x_crlf': b' x\r\n', 'crcr_lf': b'\r\r\n', 'sp3_nul_lf': b'  \0 \n', 'h_crlf': b'h\r\n'}
+LINE_POSITIONS = {
+    'before_request_line': ('req', b'', OKREQ),
+    'between_requests': ('req', OKREQ, OKREQ),
+    'in_request_headers': ('req', RQ, RQE),
+    'req_chunk_size': ('req', POSTH + TE, b'1\r\na\r\n0\r\n\r\n'),
+    'after_req_chunked_body': ('req', POSTH + TE + b'1\r\na\r\n0\r\n\r\n', b''),
+    'before_status_line': ('res', b'', OKRES),
+    'after_100_continue': ('res', b'HTTP/1.1 100 Continue\r\n\r\n', OKRES),
+    'in_response_headers': ('res', RS, b'Content-Length: 0\r\n\r\n'),
+    'res_chunk_size': ('res', RS + TE, b'1\r\na\r\n0\r\n\r\n'),
+    'after_res_chunked_body': ('res', RS + TE + b'1\r\na\r\n0\r\n\r\n', b''),
+    'after_response': ('res', OKRES, b''),
+}
+for _pn, (_side, _pre, _suf) in LINE_POSITIONS.items():
+    for _un, _u in LINE_UNITS.items():
+        for _pers in (1, 5):       # generic, and IIS 5.1 (which treats leading blank lines differently)
+            _name = 'hv_line_%s_%s_p%d' % (_pn, _un, _pers)
+            FAMILIES[_name] = (_side, {'PERSONALITY': _pers}, pump(_pre, _u, _suf))
+            HV_FAMILIES.append(_name)
+
 ONE_TX_SUFFIX = ('req_pipelined', 'req_pipelined_keep', 'req_http09_junk')
 
 
